@@ -17,6 +17,7 @@ RULE = ("Element (proportion 1..3), Substance (string, dict, or extended with ad
         "mass M from the independent isotope-table expansion): rho = n M, the given density is reported unchanged, "
         "mass = rho V, sum_i rho_i = rho, sum_i M_i = mass, n_i = amount_i n, N_i = n_i V, and all outputs identical "
         "under the change of input units. Non-trivial: volume present and >=2 components, or non-default input units. "
+        "Round 4: substances with a proportion, fractional dict amounts after a sibling with the same symbols, add() inside an open with-block, number densities given in pm-3 / nm-3. "
         "Distinct = distinct case JSON.")
 ASSUMPTIONS = ["relative tolerance 1e-9", "composites have at least one component; densities and volumes are positive"]
 NT_FLOOR = 0.4
